@@ -32,6 +32,26 @@ def span_programs(seed, n):
     return out
 
 
+def cover_programs(wd, thorough, ck):
+    """one program per transition of the batching automaton (GEN_SpanCover): batches closed early, immediates moved to the
+    next batch, groups closed one short, padding groups - shapes random patterns rarely hit"""
+    pats = []
+    for nb, fine in ((2, 1), (3, 0)) if thorough else ((2, 0),):
+        cfgp = os.path.join(wd, "GEN_SpanCover_%d_%d.cfg" % (nb, fine))
+        with open(cfgp, "w") as f:
+            f.write("CONSTANTS NB = %d FINE = %d FULL = FALSE\nINIT Init\nNEXT Next\nVIEW Shape\nCHECK_DEADLOCK FALSE\n" % (nb, fine))
+        r = tlc_or_die("GEN_SpanCover.tla", cfg=cfgp, cwd=os.path.join(SPEC, "gen"), workers=1, timeout=3000, heap="6g")
+        ck.add_tlc(r)
+        pats += [sc["pat"] for sc in json_prints(r, "span")]
+    if len(pats) < 1000:
+        raise ToolError("covering set of span patterns is unexpectedly small (%d)" % len(pats))
+    out = []
+    for k, pat in enumerate(pats):
+        ops = ["push.%d" % (2 + (7919 * (i + 1) * (k + 1)) % (2**62)) if b else ("swap" if i % 2 else "neg") for i, b in enumerate(pat)]
+        out.append({"src": "begin\n  " + " ".join(ops) + "\nend\n", "kernel": None, "inputs": [3, 5], "class": "span-cover"})
+    return out
+
+
 def run(tier, replay=None):
     ck = Check("C13", tier)
     ck.rule = "a case = one recorded execution (program, inputs); distinct = distinct program texts; every row of every execution is validated"
@@ -53,6 +73,9 @@ def run(tier, replay=None):
         progs = progen.corpus(seed(), n, classes=["flow", "calls", "mixed", "stack", "crypto"], nstmts=14 if thorough else 10)
         progs += progen.depth_sweep(depths=(0, 17, 24) if thorough else (17,), rng_seed=seed())
         progs += span_programs(seed(), 200 if thorough else 40)
+        cov = cover_programs(wd, thorough, ck)
+        ck.extra["covering_span_programs"] = len(cov)
+        progs += cov
     for prof in ("release",) + (("checked",) if thorough else ()):
         rec = vmtrace.record(progs, wd, prof)
         rows, states, rejects, runs = vmtrace.validate(rec, wd, "c13_" + prof)
